@@ -53,6 +53,23 @@ def _world(m, kind):
 _MISSING = object()
 
 
+_SEEN = []
+
+
+def _havoc_id(obj):
+    """builtin id() as seen by the framework's modules: an object's address is ambient process state (allocator history,
+    other models built and dropped before) - arbitrary, but stable per object and distinct between objects.  Agents
+    carry their symbolic 'address rank' in .h; everything else gets consecutive numbers."""
+    for k, o in enumerate(_SEEN):
+        if o is obj:
+            break
+    else:
+        _SEEN.append(obj)
+        k = len(_SEEN) - 1
+    h = getattr(obj, 'h', 0) if isinstance(obj, HA) else 0
+    return h * 1024 + k
+
+
 class _Patch:
     """havoc every process-global generator for the duration of a path"""
 
@@ -68,6 +85,9 @@ class _Patch:
             for n in ("set", "frozenset"):
                 self.saved.append((mod, n, mod.__dict__.get(n, _MISSING)))
                 setattr(mod, n, HavocSet)
+            self.saved.append((mod, "id", mod.__dict__.get("id", _MISSING)))
+            setattr(mod, "id", _havoc_id)
+        del _SEEN[:]
         for mod, names in ((random, ("choice", "shuffle", "random", "randint", "randrange", "sample")),
                            (np.random, ("choice", "shuffle", "random", "randint", "permutation"))):
             for n in names:
@@ -472,7 +492,8 @@ OUTSIDE = ["hash seeds other than the pinned ones in `system_order` (each is dec
            "hash-order dependence through set literals/comprehensions or through third-party containers (only set()/frozenset() calls are havocked)",
            "fresh interpreter vs. batch worker process: a worker builds its model from its kwargs alone (decided in C15.serial)",
            "user systems that themselves call the global generators"]
-STUBS = ["system_order: PYTHONHASHSEED pinned per partition for the worker process (enumerated, not symbolic)",
+STUBS = ["builtin id() as seen by the framework's modules returns an arbitrary (symbolic rank, stable, distinct) number per object: addresses are ambient process state",
+         "system_order: PYTHONHASHSEED pinned per partition for the worker process (enumerated, not symbolic)",
          "model.random = SymRandom(stream)", "random.* and numpy.random.* entry points replaced by Havoc stubs driven by an independent symbolic stream",
          "ECAgent.Core.random replaced by a recording module (seed_plumbing only)", "set/frozenset as seen by ECAgent.Core/Environments/Batching/Collectors replaced by HavocSet: exact membership/size/algebra, arbitrary (symbolic) iteration order; set literals/comprehensions are not intercepted",
          "Model.logger replaced by a no-op logger"]
